@@ -61,7 +61,7 @@ def run(tier, v):
     if thorough:
         table = {k: x for k, x in table.items() if len(set(x["cfg"]["startup"])) > 1 or x["cfg"]["n"] == 3}
     rows_c, rows_t, validated, tstates, cstat, corrupted = pc.both(
-        v, PID, b, d, table, 3 if thorough else 2, "c12", 2000 if thorough else 150)
+        v, PID, b, d, table, 3 if thorough else 2, "c12", 2000 if thorough else 150, enum="c12enum")
     runs_t = sorted({r["run"] for r in rows_t})
     ends = [r for r in rows_t if r["ev"] == "end"]
     confs = {r["run"]: r for r in rows_t if r["ev"] == "conf"}
@@ -69,12 +69,11 @@ def run(tier, v):
         "states": states, "transitions": trans,
         "traces_validated_against_impl": validated,
         "trace_events": len(rows_c) + len(rows_t), "trace_states": tstates,
-        "random_configurations": len(runs_t),
+        "random_configurations": len([x for x in runs_t if x < 1000000]),
+        "enumerated_startup_configurations": len([x for x in runs_t if x >= 1000000]),
         "runs_via_config_decoding": len([r for r in rows_t if r["ev"] == "conf" and "viaconf=true" in r["desc"]]),
-        "runs_excluded_failed_schedule_factory": len([r for r in rows_t + rows_c if r["ev"] == "end"
-                                                      and pc.FACTORY_DEFECT in r["err"]]),
-        "runs_start_cut_short": len([e for e in ends if e["created"] < confs[e["run"]]["n"]]),
-        "runs_all_tokens_started": len([e for e in ends if e["created"] == confs[e["run"]]["n"]]),
+        "runs_start_cut_short": len([e for e in ends if e["created"] < confs[e["run"]]["n_impl"]]),
+        "runs_all_tokens_started": len([e for e in ends if e["created"] == confs[e["run"]]["n_impl"]]),
         "instances_created": sum(e["created"] for e in ends),
         "runs_with_known_start_instant": len([c for c in confs.values() if c["explicit"]]),
         "samples": [pc.sample_of(rows_t, x) for x in runs_t[:2]] + [pc.sample_of(rows_c, 0)],
